@@ -13,48 +13,58 @@ Qed.
 Lemma call_ok_cause : forall e kc, call_ok e kc = true -> snd kc = 0.
 Proof. intros e kc H. unfold call_ok in H. rewrite sim_api_call in H. cbn [res_code] in H. apply Z.eqb_eq in H. symmetry. exact H. Qed.
 
-(** an accepted side: every call that was parked at the close or issued after it returned the recorded cause; nothing
-    of the connection is left in the routing table after the closing period; a CONNECTION_CLOSE went out iff the
-    recorded cause is a local application / transport error of a non-immediate close (never for a timeout, a reset, a
-    destroyed or remotely closed connection); and if the peer recorded a remote close, it is that cause's kind and code *)
+(** an accepted side of an established connection: every call that was parked at the close or issued after it returned the
+    recorded cause; nothing of the connection is left in the routing table after the closing period; a CONNECTION_CLOSE
+    went out iff the recorded cause is a local, non-immediate, non-silent error and (server or first packet sent); if a copy
+    of it reached the peer in time the peer recorded exactly that cause's frame kind and code; and a peer never records a
+    remote close that was not sent *)
 Theorem accepted_side : forall s, check_side s = true ->
+  let ce := {| ce_err := errk_of (sd_cause s); ce_immediate := sd_immediate s |} in
+  let frame := (let '(isApp, code) := close_frame (mapped_err ce) in (if isApp then 3 else 4, code)) in
+  sd_hs s = true /\
   Forall (fun kc => snd kc = 0) (sd_parked s ++ sd_later s) /\
   sd_routing s = 0 /\
   (sd_sent s = true <->
      is_remote (errk_of (sd_cause s)) = false /\ sd_immediate s = false /\ silent_err (errk_of (sd_cause s)) = false /\
-     (exists isApp code, close_frame (mapped_err {| ce_err := errk_of (sd_cause s); ce_immediate := sd_immediate s |}) = (isApp, code))) /\
-  (forall p, sd_peer s = Some p -> sd_sent s = true /\
-     p = (let '(isApp, code) := close_frame (mapped_err {| ce_err := errk_of (sd_cause s); ce_immediate := sd_immediate s |}) in
-          (if isApp then 3 else 4, code))).
+     (sd_client s = false \/ sd_sentFirst s = true)) /\
+  (sd_delivered s = true -> sd_sent s = true /\ sd_peer s = Some frame) /\
+  (forall p, sd_peer s = Some p -> sd_sent s = true /\ p = frame).
 Proof.
-  intros s H. unfold check_side in H.
+  intros s H. cbv zeta. unfold check_side in H.
   set (ce := {| ce_err := errk_of (sd_cause s); ce_immediate := sd_immediate s |}) in *.
   unfold side_model in H. fold ce in H.
   apply andb_prop in H. destruct H as [H Hl]. apply andb_prop in H. destruct H as [H Hp].
-  apply andb_prop in H. destruct H as [H Hr]. apply andb_prop in H. destruct H as [Hs Hpeer].
-  split; [|split; [|split]].
+  apply andb_prop in H. destruct H as [H Hr]. apply andb_prop in H. destruct H as [H Hpeer].
+  apply andb_prop in H. destruct H as [Hhs Hs].
+  assert (M : is_remote (mapped_err ce) = is_remote (errk_of (sd_cause s)) /\ silent_err (mapped_err ce) = silent_err (errk_of (sd_cause s))).
+  { unfold mapped_err, ce. cbn [ce_err ce_immediate]. destruct (errk_of (sd_cause s)); try (split; reflexivity);
+      destruct (sd_immediate s); split; reflexivity. }
+  destruct M as [M1 M2].
+  pose proof (close_frame_iff (sd_client s) (sd_sentFirst s) false ce) as I. rewrite M1, M2 in I. cbn [ce_immediate ce] in I.
+  apply Bool.eqb_prop in Hs.
+  assert (FR : forall isApp code, close_action (sd_client s) (sd_sentFirst s) false ce = ActSendClose isApp code ->
+               (let '(a, c) := close_frame (mapped_err ce) in (if a then 3 else 4, c)) = (if isApp then 3 else 4, code)).
+  { intros isApp code A. pose proof (close_frame_code _ _ _ _ _ _ A) as C.
+    destruct (mapped_err ce); cbn [close_frame]; destruct C as [C1 C2]; subst; reflexivity. }
+  split; [exact Hhs|]. split; [|split; [|split; [|split]]].
   - apply Forall_app. rewrite forallb_forall in Hp, Hl. split; apply Forall_forall; intros kc Hin;
       eapply call_ok_cause; [apply Hp|apply Hl]; exact Hin.
   - unfold exit_routing in Hr. cbn in Hr. lia.
-  - apply Bool.eqb_prop in Hs. rewrite Hs.
-    assert (M : is_remote (mapped_err ce) = is_remote (errk_of (sd_cause s)) /\ silent_err (mapped_err ce) = silent_err (errk_of (sd_cause s))).
-    { unfold mapped_err, ce. cbn [ce_err ce_immediate]. destruct (errk_of (sd_cause s)); try (split; reflexivity);
-        destruct (sd_immediate s); split; reflexivity. }
-    destruct M as [M1 M2].
-    pose proof (close_frame_iff (sd_client s) true false ce) as I. rewrite M1, M2 in I. cbn [ce_immediate ce] in I.
-    split.
-    + intros T. assert (X : exists a c, close_action (sd_client s) true false ce = ActSendClose a c).
-      { destruct (close_action (sd_client s) true false ce); try discriminate. eauto. }
-      apply I in X. destruct X as (A & B & C & _ & _). repeat split; auto.
-      destruct (close_frame (mapped_err ce)) as [a c]. eauto.
-    + intros (A & B & C & _). assert (X : exists a c, close_action (sd_client s) true false ce = ActSendClose a c).
+  - rewrite Hs. split.
+    + intros T. assert (X : exists a c, close_action (sd_client s) (sd_sentFirst s) false ce = ActSendClose a c).
+      { destruct (close_action (sd_client s) (sd_sentFirst s) false ce); try discriminate. eauto. }
+      apply I in X. destruct X as (A & B & C & D & _). repeat split; auto.
+    + intros (A & B & C & D). assert (X : exists a c, close_action (sd_client s) (sd_sentFirst s) false ce = ActSendClose a c).
       { apply I. repeat split; auto. }
       destruct X as [a [c X]]. rewrite X. reflexivity.
-  - intros p Hpe. rewrite Hpe in Hpeer.
-    destruct (close_action (sd_client s) true false ce) as [| |isApp code] eqn:A; try discriminate.
-    apply Bool.eqb_prop in Hs. split; [exact Hs|].
-    pose proof (close_frame_code _ _ _ _ _ _ A) as C.
+  - intros Hd. rewrite Hd in Hpeer. destruct (sd_peer s) as [p|] eqn:Pe;
+      destruct (close_action (sd_client s) (sd_sentFirst s) false ce) as [| |isApp code] eqn:A; try discriminate.
+    split; [rewrite Hs; reflexivity|]. f_equal.
     unfold pair_eqb in Hpeer. apply andb_prop in Hpeer. destruct Hpeer as [P1 P2].
-    destruct p as [p1 p2]. cbn [fst snd] in *.
-    destruct (mapped_err ce) eqn:ME; cbn [close_frame]; destruct C as [C1 C2]; subst; f_equal; lia.
+    rewrite (FR isApp code eq_refl). destruct p as [p1 p2]. cbn [fst snd] in *. f_equal; lia.
+  - intros p Hpe. rewrite Hpe in Hpeer.
+    destruct (close_action (sd_client s) (sd_sentFirst s) false ce) as [| |isApp code] eqn:A; try discriminate.
+    split; [rewrite Hs; reflexivity|].
+    unfold pair_eqb in Hpeer. apply andb_prop in Hpeer. destruct Hpeer as [P1 P2].
+    rewrite (FR isApp code eq_refl). destruct p as [p1 p2]. cbn [fst snd] in *. f_equal; lia.
 Qed.
